@@ -318,4 +318,8 @@ def finalParams (declared : List ParamInfo) (vars : List Str) : List ParamInfo :
   let all := declared ++ ensurePathVars (declared.map (·.name)) vars
   all.filter (·.required) ++ all.filter (fun p => !p.required)
 
+/-- What the code does since the repair of F18: `for var in sorted(url_vars)` - the set is iterated in sorted order, so the
+    result is a function of the SET of variables (`vars` = the set in any order). -/
+def codeParams (declared : List ParamInfo) (vars : List Str) : List ParamInfo := finalParams declared (sortU vars)
+
 end Pog.Diff
